@@ -20,6 +20,7 @@ class C01(Property):
                          # encoder
                          "encodeHitObjects_no_panic", "encode_no_panic_of_nonneg_dist", "encode_no_panic_without_sliders",
                          "collectObject_panics", "encode_decoded_no_panic_of_dist_nonneg",
+                         "dist_cases", "curveDist_cases", "distOk_of_three",
                          # fuel, structural part
                          "bezier_fuel_suffices"]
     partial_theorems = {
@@ -39,7 +40,9 @@ class C01(Property):
                         "A NaN distance is harmless (f64::min ignores NaN: min_maxLen_nan; observed on both sides for a decoded NaN-length slider). NOT proved: "
                         "decoded_dist_nonneg_statement — that a decoded map's slider distances are non-negative (the decoder stores only expected lengths >= EPSILON, so this is "
                         "non-negativity of the natural length optimized_len + sum of segment lengths: an order/rounding fact, law-dependent); "
-                        "encode_decoded_no_panic_of_dist_nonneg reduces encode_decoded_no_panic_statement to it. For maps edited through the public API the assertion CAN fail "
+                        "encode_decoded_no_panic_of_dist_nonneg reduces encode_decoded_no_panic_statement to it, and distOk_of_three (with dist_cases / curveDist_cases: a slider's distance is 0.0, its "
+                        "natural length or its stored expected distance) reduces the hypothesis to three scalar facts: 0 <= min(100000, 0), 0 <= min(100000, L) for stored expected "
+                        "distances, 0 <= min(100000, natural length). For maps edited through the public API the assertion CAN fail "
                         "in the real crate: expected_dist = Some(-1e-6) on an osu!-mode Catmull slider whose first cumulative length is negative by rounding gives dist = -1e-6 and "
                         "Beatmap::encode_to_string panics in collect_samples (witness in the level text); outside this property's quantifier (maps obtained by decoding). "
                         "Fuel of the tick loop: C20.ticks_fuel_suffices (law-dependent). `String::from_utf8` cannot fail because the model's output is a `List Char`",
